@@ -68,6 +68,6 @@ Print Assumptions C02_control_scope.
 
 (* with substitution off the SQL text reaches the database byte for byte *)
 Theorem C02_sql_verbatim :
-  forall substitute st b s, subst_on st = false -> may_substitute substitute st b s = inl s.
+  forall substitute st b s, subst_on st = false -> may_substitute substitute st b s = SubOk s.
 Proof. exact subst_off_identity. Qed.
 Print Assumptions C02_sql_verbatim.
